@@ -273,6 +273,17 @@ func checkConfig(c Config) (summary string, err error) {
 			_ = os.WriteFile(filepath.Join(target, "lexer.go"), []byte("package old // keep me\n"), 0o600)
 			_ = os.WriteFile(filepath.Join(target, "notes.txt"), []byte("notes\n"), 0o444)
 			preUsable = false
+		case "dirwithlinks":
+			// the package directory exists and holds links named like the files of the package: writing "through" them
+			// would change files elsewhere
+			_ = os.Mkdir(target, 0o755)
+			victim := filepath.Join(sb, "victim.go")
+			_ = os.WriteFile(victim, []byte("package victim // must survive\n"), 0o644)
+			for _, f := range []string{"lexer.go", "types.go", "input.go"} {
+				_ = os.Symlink(victim, filepath.Join(target, f))
+			}
+			_ = os.Symlink(filepath.Join(sb, "nowhere.go"), filepath.Join(target, "parser.go"))
+			preUsable = false
 		case "file":
 			_ = os.WriteFile(target, []byte("a file in the way\n"), 0o640)
 			preUsable = false
@@ -454,7 +465,7 @@ func genConfig(t *rapid.T) Config {
 		Input:    rapid.SampledFrom([]string{"valid", "valid", "valid3", "valid3", "valid2", "valid4", "valid5", "syntax", "lexical", "semantic", "pattern", "tconflict", "lalr", "keyword", "missing", "directory"}).Draw(t, "input"),
 		OutFlag:  rapid.SampledFrom([]string{"", "=", " ", "="}).Draw(t, "outFlag"),
 		OutState: rapid.SampledFrom([]string{"dir", "dir", "dir", "missing", "file"}).Draw(t, "outState"),
-		Pre:      rapid.SampledFrom([]string{"none", "none", "dir", "dirwithfiles", "file", "symlinkdir", "dangling", "unrelated"}).Draw(t, "pre"),
+		Pre:      rapid.SampledFrom([]string{"none", "none", "dir", "dirwithfiles", "dirwithlinks", "file", "symlinkdir", "dangling", "unrelated"}).Draw(t, "pre"),
 		NameFlag: rapid.SampledFrom([]string{"", "", "=", " "}).Draw(t, "nameFlag"),
 		Name:     rapid.SampledFrom(names).Draw(t, "name"),
 	}
